@@ -145,6 +145,25 @@ class ReVal(object):
         return KeyError
 
     def abs_call(self, it, st, name, args, kwargs, node):
+        if name in ("sub", "subn") and len(args) >= 2 and isinstance(args[1], str) and not isinstance(args[0], (str, Top)) and not kwargs:
+            # replacement computed by a function of the program: called (through the interpreter) for every match
+            repl = args[0]
+            failed = []
+
+            def cb(m, _it=it, _st=st):
+                outs = apply(_it, _st, repl, [ReMatch(m)], {}, node)
+                if len(outs) == 1 and outs[0][1] == "val" and isinstance(outs[0][2], str) and outs[0][0] is _st:
+                    return outs[0][2]
+                failed.append(outs)
+                return ""
+            try:
+                r = getattr(self.rx, name)(cb, args[1], *[a for a in args[2:] if isinstance(a, int)])
+            except Exception:       # noqa
+                failed.append("error")
+                r = None
+            if not failed:
+                return [(st, "val", tuple(r) if isinstance(r, tuple) else r)]
+            return [(st, "val", Top("re.%s(callable)" % name, False))]
         if name in ("sub", "split", "findall", "subn") and all(isinstance(a, (str, int)) for a in args) and not kwargs:
             r = getattr(self.rx, name)(*args)
             return [(st, "val", tuple(r) if isinstance(r, list) else r)]
@@ -226,6 +245,9 @@ def call_external(self, st, name, args, kwargs, node):
     last = name.split(".")[-1]
     if name in ("six.moves.zip", "six.moves.range", "six.moves.map", "six.moves.filter", "builtins.zip", "builtins.range"):
         return call_builtin(self, st, last, args, kwargs, node)
+    if name in ("six.unichr", "builtins.chr", "six.moves.builtins.chr") and len(args) == 1 and isinstance(args[0], int) and not isinstance(args[0], bool) \
+            and 0 <= args[0] <= 0x10FFFF:
+        return [(st, "val", chr(args[0]))]
     if name.startswith("re."):
         r = fold_regex_call(self, name, args, kwargs)
         if r is not KeyError:
@@ -319,6 +341,9 @@ def str_method(self, st, s, name, args, kwargs, node):
             return [(st, "val", s.format(*args, **kwargs))]
         except Exception as e:     # noqa
             return self.raise_exc(st, type(e).__name__, node, "str", str(e))
+    if name == "translate" and len(args) == 1 and not kwargs and isinstance(args[0], Ref) and st.obj(args[0]).kind == "dict" \
+            and st.obj(args[0]).items is not None and all(isinstance(k_, int) and (isinstance(v_, (str, int)) or v_ is None) for k_, v_ in st.obj(args[0]).items):
+        return [(st, "val", s.translate(dict(st.obj(args[0]).items)))]
     if name in PURE_STR_METHODS and all(_plain(a) for a in args) and not kwargs:
         try:
             r = getattr(s, name)(*args)
@@ -761,6 +786,15 @@ def call_builtin(self, st, name, args, kwargs, node):
         if not args:
             return [(st, "val", False)]
         return [(s, "val", b) for (s, b) in self.truth(st, args[0], node)]
+    if name in ("chr", "unichr", "ord"):
+        a0 = args[0] if args else None
+        if hasattr(a0, "abs_call") and hasattr(a0, "m") and name == "ord":
+            pass
+        if name == "ord" and isinstance(a0, str) and len(a0) == 1:
+            return [(st, "val", ord(a0))]
+        if name in ("chr", "unichr") and isinstance(a0, int) and not isinstance(a0, bool) and 0 <= a0 <= 0x10FFFF:
+            return [(st, "val", chr(a0))]
+        return [(st, "val", Top(name + "()", isinstance(a0, Top) and a0.input))]
     if name in ("str", "repr", "int", "float", "id", "hash", "abs", "round", "min", "max", "sum", "vars"):
         if name in ("max", "min") and args and getattr(self, "int_sat", 2) > 2 and not kwargs:
             vals = None
